@@ -313,6 +313,30 @@ def planeToLocal (pos : Iso3 K) (axis : V3 K) (bias : K) : V3 K × K :=
   let addedBias := -(pos.t.dot axis)
   (localAxis, bias + addedBias)
 
+/-- the vertex colour of `TriMesh::local_split` / `intersection_with_local_plane`:
+`let dist_to_plane = pt.coords.dot(local_axis) - bias; if dist_to_plane < -epsilon {1} else if dist_to_plane > epsilon {2} else {0}`
+(0 = on the plane up to `epsilon`, 1 = negative side, 2 = positive side). -/
+def vertexColour (n : V3 K) (bias eps : K) (p : V3 K) : Nat :=
+  let d := p.dot n - bias
+  if d < -eps then 1 else if eps < d then 2 else 0
+
+/-- the early exit shared by `TriMesh::local_split` and `TriMesh::intersection_with_local_plane` (vertex partition loop, then
+`if !found_negative { return Positive }`, `if !found_positive { return Negative }`); `.pair () ()` = the plane crosses the mesh and
+the function goes on to cut it (`Pair(..)` / `Intersect(..)` for a mesh whose vertices are all used by triangles). -/
+def meshVerdict (pts : List (V3 K)) (n : V3 K) (bias eps : K) : Split Unit :=
+  let foundNegative := pts.any fun p => vertexColour n bias eps p == 1
+  let foundPositive := pts.any fun p => vertexColour n bias eps p == 2
+  if !foundNegative then .positive else if !foundPositive then .negative else .pair () ()
+
+/-- verdict of the world-space wrappers `TriMesh::split(position, axis, bias, eps)` / `intersection_with_plane(..)` -/
+def meshVerdictPos (pts : List (V3 K)) (pos : Iso3 K) (axis : V3 K) (bias eps : K) : Split Unit :=
+  let (la, lb) := planeToLocal pos axis bias
+  meshVerdict pts la lb eps
+
+/-- verdict of `TriMesh::canonical_split(i, bias, eps)` / `canonical_intersection_with_plane(..)` -/
+def meshVerdictCanonical (pts : List (V3 K)) (i : Fin 3) (bias eps : K) : Split Unit :=
+  meshVerdict pts (ithAxis i) bias eps
+
 namespace Segment3
 /-- `Segment::canonical_split(axis, bias, epsilon)` = `local_split(&Vector::ith_axis(axis), bias, epsilon)` -/
 def canonicalSplit (s : Segment3 K) (axis : Fin 3) (bias eps : K) : Split (Segment3 K) :=
